@@ -30,3 +30,4 @@ def run(rep, tier):
     from .. import mapping
     mapping.bound_spellings(rep)
     mapping.repeat_mapping(rep)
+    mapping.spelling_pairs(rep)
